@@ -507,6 +507,8 @@ func runShard(e *Engine, self, id, tier string, seed int64, shard, nshards, only
 		var werr error
 		lastSize := int64(-1)
 		lastChange := time.Now()
+		lastDone := time.Now() // heartbeats keep the stall watchdog quiet, but no single case may run longer than 15 minutes
+		lastDoneCount := 0
 	wait:
 		for {
 			select {
@@ -521,7 +523,14 @@ func runShard(e *Engine, self, id, tier string, seed int64, shard, nshards, only
 				if sz != lastSize {
 					lastSize = sz
 					lastChange = time.Now()
-				} else if time.Since(lastChange) > time.Duration(stall)*time.Second {
+					if b, err := os.ReadFile(out); err == nil {
+						if n := strings.Count(string(b), `"ev":"done"`); n != lastDoneCount {
+							lastDoneCount = n
+							lastDone = time.Now()
+						}
+					}
+				}
+				if time.Since(lastChange) > time.Duration(stall)*time.Second || time.Since(lastDone) > 15*time.Minute {
 					stalled = true
 					_ = cmd.Process.Signal(syscall.SIGQUIT)
 					select {
